@@ -1,9 +1,282 @@
-"""Kani back end (filled in below)."""
+"""Kani back end.
+
+The real crate is copied (rsync --checksum, without target/ and .git) from the repository's
+working tree into a scratch source directory, the harness modules and contract attributes of
+the requested units are injected, and `cargo kani` is run per harness.  A persistent
+CARGO_TARGET_DIR under /verif/work keeps the dependency build (42 s cold, 5 s warm);
+cargo's own fingerprinting decides what is rebuilt, so results always come from the
+current sources.  An exclusive lock serialises concurrent checks.
+"""
+import concurrent.futures as cf
+import fcntl
+import os
+import re
+import shutil
+import subprocess
+import time
+
+from rstok import find_item, tokenize, LostAnchor, Unsupported
+
+HERE = os.path.dirname(os.path.abspath(__file__))
+ROOT = os.path.dirname(HERE)
+WORK = os.path.join(ROOT, "work", "kani")
+SRC = os.path.join(WORK, "src")
+TARGET = os.path.join(WORK, "target")
+KANI_FLAGS = ["-Z", "function-contracts", "-Z", "stubbing"]
+
+
+def _env():
+    e = dict(os.environ)
+    e["CARGO_NET_OFFLINE"] = "true"
+    e["CARGO_TARGET_DIR"] = TARGET
+    return e
+
+
+def _sync(repo):
+    os.makedirs(SRC, exist_ok=True)
+    subprocess.run(["rsync", "-a", "--delete", "--checksum", "--exclude", "/target", "--exclude", ".git",
+                    repo.rstrip("/") + "/", SRC + "/"], check=True)
+
+
+def parse_harness_file(path):
+    """-> (injections: {relpath: text}, attrs: [(relpath, [segs], text)])"""
+    inj, attrs = {}, []
+    cur = None
+    buf = []
+
+    def flush():
+        nonlocal cur, buf
+        if cur is None:
+            return
+        text = "\n".join(buf)
+        if cur[0] == "inject":
+            inj[cur[1]] = inj.get(cur[1], "") + "\n" + text + "\n"
+        else:
+            attrs.append((cur[1], cur[2], text))
+        cur, buf = None, []
+
+    with open(path) as f:
+        for ln in f.read().split("\n"):
+            s = ln.strip()
+            m = re.match(r"//@inject\s+(\S+)$", s)
+            if m:
+                flush()
+                cur = ("inject", m.group(1))
+                continue
+            m = re.match(r"//@attr\s+(\S+)\s*::\s*(.*)$", s)
+            if m:
+                flush()
+                cur = ("attr", m.group(1), [x.strip() for x in m.group(2).split("::")])
+                continue
+            if s.startswith("//@end"):
+                flush()
+                continue
+            if cur is not None:
+                buf.append(ln)
+    flush()
+    return inj, attrs
+
+
+def inject(units):
+    """apply injections of all units to SRC.  Raises LostAnchor."""
+    per_file_attr = {}
+    per_file_inj = {}
+    for name, u in units:
+        inj, attrs = parse_harness_file(os.path.join(ROOT, u["file"]))
+        for rel, text in inj.items():
+            per_file_inj[rel] = per_file_inj.get(rel, "") + text
+        for rel, segs, text in attrs:
+            per_file_attr.setdefault(rel, []).append((segs, text))
+    for rel in set(per_file_attr) | set(per_file_inj):
+        p = os.path.join(SRC, rel)
+        if not os.path.exists(p):
+            raise LostAnchor("file %s not found" % rel)
+        with open(p) as f:
+            src = f.read()
+        edits = []
+        for segs, text in per_file_attr.get(rel, []):
+            item, toks = find_item(src, segs)
+            # insert before attributes preceding the item
+            i = item.tok_lo
+            start = item.start
+            while i >= 2 and toks[i - 1].text == "]":
+                depth, j = 0, i - 1
+                while j >= 0:
+                    if toks[j].text == "]":
+                        depth += 1
+                    elif toks[j].text == "[":
+                        depth -= 1
+                        if depth == 0:
+                            break
+                    j -= 1
+                if j >= 1 and toks[j - 1].text == "#":
+                    start = toks[j - 1].start
+                    i = j - 1
+                else:
+                    break
+            edits.append((start, text + "\n"))
+        for off, text in sorted(edits, reverse=True):
+            src = src[:off] + text + src[off:]
+        src += per_file_inj.get(rel, "")
+        with open(p, "w") as f:
+            f.write(src)
+
+
+RES = re.compile(r"VERIFICATION:- (SUCCESSFUL|FAILED)")
+SUMMARY = re.compile(r"\*\* (\d+) of (\d+) failed")
+FAILED_CHECK = re.compile(r"Failed Checks: (.*)")
+
+
+def run_harness(h, crate_dir, timeout):
+    cmd = ["cargo", "kani"] + KANI_FLAGS + ["--harness", h["name"]] + h.get("flags", [])
+    t0 = time.time()
+    try:
+        p = subprocess.run(cmd, cwd=crate_dir, env=_env(), capture_output=True, text=True, timeout=timeout)
+        out = p.stdout + "\n" + p.stderr
+        rc = p.returncode
+    except subprocess.TimeoutExpired as e:
+        out = "TIMEOUT"
+        rc = -9
+    wall = time.time() - t0
+    r = {"harness": h["name"], "cmd": "CARGO_NET_OFFLINE=true " + " ".join(cmd), "wall_s": wall, "rc": rc,
+         "status": "undecided", "reason": "", "checks": 0, "failed_checks": [], "out_tail": out[-6000:]}
+    if out == "TIMEOUT":
+        r["reason"] = "kani timed out after %ds" % timeout
+        return r
+    m = RES.search(out)
+    ms = SUMMARY.search(out)
+    if ms:
+        r["checks"] = int(ms.group(2))
+    if not m:
+        if "error: could not compile" in out or "error[E" in out or "error:" in out:
+            errs = [ln for ln in out.split("\n") if ln.startswith("error")]
+            r["reason"] = "harness does not compile / kani error: " + "; ".join(errs[:3])
+        else:
+            r["reason"] = "no verification result"
+        return r
+    if m.group(1) == "SUCCESSFUL":
+        # stub lines must be present when stubs are expected
+        for st in h.get("expect_stubs", []):
+            if st not in out:
+                r["reason"] = "expected stub %s not applied" % st
+                return r
+        if r["checks"] == 0:
+            r["reason"] = "no checks generated"
+            return r
+        r["status"] = "ok"
+        return r
+    fails = FAILED_CHECK.findall(out)
+    # unwinding assertion failures mean the bound was too small: undecided, not a violation
+    desc = []
+    for blk in re.split(r"\n(?=Check \d+:)", out):
+        if "Status: FAILURE" in blk:
+            md = re.search(r'Description: "(.*)"', blk)
+            ml = re.search(r"Location: (.*)", blk)
+            desc.append({"description": md.group(1) if md else "?", "location": ml.group(1).strip() if ml else "?"})
+    r["failed_checks"] = desc or [{"description": f, "location": "?"} for f in fails]
+    if desc and all("unwinding assertion" in d["description"] for d in desc):
+        r["reason"] = "unwinding bound too small"
+        return r
+    r["status"] = "violated"
+    return r
+
+
+def playback(h, crate_dir, timeout=600):
+    """ask Kani for a concrete counterexample of a failed harness (printed unit test)."""
+    cmd = ["cargo", "kani"] + KANI_FLAGS + ["-Z", "concrete-playback", "--concrete-playback=print",
+                                            "--harness", h["name"]] + h.get("flags", [])
+    try:
+        p = subprocess.run(cmd, cwd=crate_dir, env=_env(), capture_output=True, text=True, timeout=timeout)
+    except subprocess.TimeoutExpired:
+        return None
+    out = p.stdout
+    m = re.search(r"```\n(.*?)```", out, re.S)
+    if not m:
+        m = re.search(r"(#\[test\]\s*fn kani_concrete_playback.*?\n\})", out, re.S)
+    return m.group(1) if m else None
 
 
 def setup(repo):
-    return 0
+    """pre-build the dependency graph once (setup_cmd)."""
+    os.makedirs(WORK, exist_ok=True)
+    with open(os.path.join(WORK, "lock"), "w") as lk:
+        fcntl.flock(lk, fcntl.LOCK_EX)
+        _sync(repo)
+        with open(os.path.join(SRC, "bitar", "src", "lib.rs"), "a") as f:
+            f.write("\n#[cfg(kani)]\nmod verif_kani_setup { #[kani::proof] fn warm() { assert!(1 + 1 == 2); } }\n")
+        p = subprocess.run(["cargo", "kani"] + KANI_FLAGS + ["--harness", "warm"], cwd=os.path.join(SRC, "bitar"),
+                           env=_env(), capture_output=True, text=True)
+        ok = "VERIFICATION:- SUCCESSFUL" in p.stdout
+        print("kani setup: %s" % ("ok" if ok else "FAILED\n" + p.stdout[-2000:] + p.stderr[-2000:]))
+        return 0 if ok else 1
 
 
 def run_units(kunits, repo, workdir, tier, prop):
-    return []
+    os.makedirs(WORK, exist_ok=True)
+    results = []
+    with open(os.path.join(WORK, "lock"), "w") as lk:
+        fcntl.flock(lk, fcntl.LOCK_EX)
+        t0 = time.time()
+        try:
+            _sync(repo)
+            inject(kunits)
+        except (LostAnchor, Unsupported, subprocess.CalledProcessError) as e:
+            for name, u in kunits:
+                results.append({"unit": name, "backend": "kani", "status": "undecided", "reason": "lost anchor: %s" % e,
+                                "failed": [], "functions": [], "obligations": 0, "discharged": 0})
+            return results
+        crate_dir = os.path.join(SRC, "bitar")
+        jobs = []
+        for name, u in kunits:
+            for h in u["harnesses"]:
+                if h.get("thorough_only") and tier != "thorough":
+                    continue
+                jobs.append((name, u, h))
+        # first job alone (builds), the rest in parallel
+        out = {}
+        if jobs:
+            name, u, h = jobs[0]
+            out[(name, h["name"])] = run_harness(h, crate_dir, h.get("timeout", 1200))
+        with cf.ThreadPoolExecutor(max_workers=6) as pool:
+            futs = {pool.submit(run_harness, h, crate_dir, h.get("timeout", 1200)): (name, h["name"])
+                    for name, u, h in jobs[1:]}
+            for f in futs:
+                out[futs[f]] = f.result()
+        for name, u in kunits:
+            r = {"unit": name, "backend": "kani", "status": "ok", "reason": "", "failed": [], "functions": [],
+                 "obligations": 0, "discharged": 0, "bounded": [], "samples": [], "kani_functions": u.get("functions", []),
+                 "assumptions": {}, "smt_ms": 0, "wall_s": 0.0, "cmd": ""}
+            for h in u["harnesses"]:
+                hr = out.get((name, h["name"]))
+                if hr is None:
+                    continue
+                r["wall_s"] += hr["wall_s"]
+                r["cmd"] = hr["cmd"]
+                entry = {"function": "%s::%s" % (name, h["name"]), "mode": "kani", "ms": int(hr["wall_s"] * 1000),
+                         "success": hr["status"] == "ok", "checks": hr["checks"]}
+                if h.get("complete", False):
+                    r["obligations"] += 1
+                    r["functions"].append(entry)
+                    if hr["status"] == "ok":
+                        r["discharged"] += 1
+                else:
+                    r["bounded"].append({"harness": h["name"], "bound": h.get("bound", "?"), "status": hr["status"],
+                                         "what": h.get("what", ""), "cbmc_checks": hr["checks"]})
+                r["samples"].append({"unit": name, "backend": "kani", "obligation": h["name"], "what": h.get("what", ""),
+                                     "complete": h.get("complete", False), "cbmc_checks": hr["checks"],
+                                     "discharged": hr["status"] == "ok", "solver_ms": int(hr["wall_s"] * 1000)})
+                if hr["status"] == "undecided":
+                    r["status"] = "undecided"
+                    r["reason"] = "%s: %s" % (h["name"], hr["reason"])
+                    r.setdefault("diagnostics", []).append(hr["out_tail"][-1500:])
+                elif hr["status"] == "violated":
+                    test = playback(h, crate_dir) if h.get("playback", True) else None
+                    for fc in hr["failed_checks"][:3]:
+                        r["failed"].append({"function": h["name"], "kind": "kani check failed: " + fc["description"],
+                                            "line": None, "col": None,
+                                            "text": "%s at %s\n\n%s" % (fc["description"], fc["location"], hr["out_tail"][-2500:]),
+                                            "witness": test, "props": h.get("properties")})
+            if r["failed"] and r["status"] == "ok":
+                r["status"] = "violated"
+            results.append(r)
+    return results
